@@ -30,6 +30,11 @@ RULE = ('pairs (data set, transformed data set) for each estimator class of the 
         '(fresh index / labels travelling with the rows), index shifted / shuffled / float / string / duplicated / '
         'all-equal / named, affine map of X (a of both signs), relabelled category codes (C(.) formulas; reference '
         'level changes), 1-A (targets, plans and probabilities recoded accordingly), cY+d with c of both signs. '
+        'cells with truncation bounds that bite (symmetric float cutting ~20% of the rows; asymmetric pair at the 15%/80% '
+        'quantiles of the fitted probabilities, lo != 1-hi) on every model that takes `bound` (IPTW treatment/missing, '
+        'AIPTW exposure/missing, TMLE exposure/missing/outcome, StochasticTMLE exposure, GEstimationSNM missing, IPSW '
+        'sampling/treatment, AIPSW treatment) under every transformation (mirrored interval where only Pr(A=1) is '
+        'truncated and A is recoded, or the unit-scale outcome is mirrored by c<0). '
         'distinct = (data hash, class, options, transformation); non-trivial = the transformation really changes what '
         'the class receives (row order / index labels / codes / values differ from the original frame); X, the '
         'categorical covariates, treatment and outcome are associated by construction')
@@ -141,6 +146,9 @@ def expected(kind, v, rel):
         return abs(c) * v
     if kind == 'selog':
         return v
+    if kind == 'cimean':
+        w = c * v + d
+        return np.sort(w) if c < 0 else w
     if kind == 'cidiff':
         w = c * v
         if flip:
@@ -244,6 +252,8 @@ def transform(df, spec, kind, rng):
         for y in spec['y']:
             df2[y] = c * df[y] + d
         rel['c'], rel['d'] = c, d
+        if c < 0:
+            spec2['yneg'] = not spec.get('yneg', False)
     else:
         raise KeyError(kind)
     return df2, spec2, rel
@@ -258,6 +268,47 @@ def really_changes(df, df2, kind):
 
 
 SWAP = {'population': 'population', 'exposed': 'unexposed', 'unexposed': 'exposed'}
+
+
+# ------------------------------------------------------------------------------------------------ truncation bounds
+# Why every relation stays EXACT under `bound=`: truncation is a per-row map of a fitted probability, so
+#  * row permutation / index relabelling / affine X / relabelled codes: each row's fitted probability is the same
+#    number in both runs, hence so is its truncated value (same `bound` on both runs);
+#  * cY+d: treatment / sampling / missingness probabilities do not involve Y (same `bound`); TMLE's outcome `bound`
+#    acts on the unit scale, where c>0 leaves Q unchanged (same `bound`) and c<0 maps Q to 1-Q, so the transformed run
+#    takes the mirrored interval [1-hi, 1-lo] (a symmetric float is its own mirror);
+#  * 1-A, classes that truncate g1 = Pr(A=1|L) and g0 = Pr(A=0|L) SEPARATELY to the same [lo, hi] (AIPTW / TMLE
+#    exposure_model) and classes that truncate arm-specific probabilities Pr(observed|A=a,L) (all missing models, TMLE
+#    outcome model): before truncation g1' = g0 and g0' = g1 (m1' = m0, Q1' = Q0), both are cut to the same interval,
+#    so the same `bound` on the recoded data gives g1' = g0, g0' = g1 after truncation too -- arm means swap exactly;
+#  * 1-A, classes that truncate only d = Pr(A=1|L) and use 1-d for the other arm (`iptw_calculator`: IPTW, IPSW and
+#    AIPSW treatment_model; StochasticTMLE.exposure_model): 1 - clip(d, [lo, hi]) = clip(1-d, [1-hi, 1-lo]), so the
+#    recoded run takes the mirrored interval (the bound is a statement about Pr(A=1), which the recoding renames);
+#  * sampling-model bounds (IPSW) do not involve A: same `bound`.
+def qbounds(pr):
+    """truncation levels that bite: a symmetric float cutting ~20% of the rows and an asymmetric pair at the 15% / 80%
+    quantiles of the fitted probabilities with lo != 1 - hi"""
+    pr = np.asarray(pr, dtype=float)
+    pr = pr[~np.isnan(pr)]
+    sym = round(float(np.quantile(np.minimum(pr, 1 - pr), 0.2)), 4)
+    lo, hi = round(float(np.quantile(pr, 0.15)), 4), round(float(np.quantile(pr, 0.8)), 4)
+    if abs(lo - (1 - hi)) < 0.03:
+        hi = round(float(np.quantile(pr, 0.65)), 4)
+    if abs(lo - (1 - hi)) < 0.03:
+        lo = round(lo / 2, 4)
+    if not lo < hi:                                    # degenerate fitted distribution: fall back to a fixed pair
+        lo, hi = 0.2, 0.7
+    return {'sym': sym, 'asym': [lo, hi]}
+
+
+def bnd(spec, opt, where, mirror=False):
+    """keyword arguments `bound=` for the model `where` of this cell (empty when the cell does not bound it)"""
+    if not opt.get('bound') or where not in opt.get('bwhere', ()):
+        return {}
+    b = spec['bounds'][where][opt['bound']]
+    if mirror and isinstance(b, list):
+        b = [1 - b[1], 1 - b[0]]
+    return {'bound': b}
 
 
 def tgt_of(spec, tgt):
@@ -281,9 +332,10 @@ def run_iptw(df, spec, opt):
     from zepid.causal.ipw import IPTW
     o = Obs()
     ipt = IPTW(df, treatment='A', outcome='Y', standardize=tgt_of(spec, opt['tgt']))
-    ipt.treatment_model(COVF, stabilized=opt['stab'], print_results=False)
+    ipt.treatment_model(COVF, stabilized=opt['stab'], print_results=False,
+                        **bnd(spec, opt, 'treat', mirror=spec.get('flipped')))
     if opt.get('miss'):
-        ipt.missing_model(OUTF, stabilized=opt['stab'], print_results=False)
+        ipt.missing_model(OUTF, stabilized=opt['stab'], print_results=False, **bnd(spec, opt, 'miss'))
         o.put('ipmw', 'rows', full_rows(df, ipt.ipmw))
     ipt.marginal_structural_model('A')
     ipt.fit()
@@ -442,12 +494,13 @@ def run_aiptw(df, spec, opt):
     from zepid.causal.doublyrobust import AIPTW
     o = Obs()
     a = AIPTW(df, exposure='A', outcome='Y')
-    a.exposure_model(COVF, print_results=False)
+    a.exposure_model(COVF, print_results=False, **bnd(spec, opt, 'treat'))
     if opt.get('miss'):
-        a.missing_model(OUTF, print_results=False)
+        a.missing_model(OUTF, print_results=False, **bnd(spec, opt, 'miss'))
     a.outcome_model(OUTF, print_results=False)
     a.fit()
     dr_common(o, a, opt['ytype'], False)
+    o.put('gW', 'rowpair', full_rows(df, [np.asarray(a.df['_g1_'], dtype=float), np.asarray(a.df['_g0_'], dtype=float)]))
     o.est = a
     return o
 
@@ -475,10 +528,10 @@ def run_tmle(df, spec, opt):
     o = Obs()
     kw = {} if opt.get('cb') is None else {'continuous_bound': opt['cb']}
     t = TMLE(df, exposure='A', outcome='Y', **kw)
-    t.exposure_model(COVF, print_results=False)
+    t.exposure_model(COVF, print_results=False, **bnd(spec, opt, 'treat'))
     if opt.get('miss'):
-        t.missing_model(OUTF, print_results=False)
-    t.outcome_model(OUTF, print_results=False)
+        t.missing_model(OUTF, print_results=False, **bnd(spec, opt, 'miss'))
+    t.outcome_model(OUTF, print_results=False, **bnd(spec, opt, 'out', mirror=spec.get('yneg')))
     t.fit()
     dr_common(o, t, opt['ytype'], True)
     o.put('gW', 'rowpair', full_rows(df, [np.asarray(t.g1W, dtype=float), np.asarray(t.g0W, dtype=float)]))
@@ -493,7 +546,7 @@ def run_snm(df, spec, opt):
     s.exposure_model(COVF + ' + B', print_results=False)
     s.structural_nested_model(opt['snm'])
     if opt.get('miss'):
-        s.missing_model(OUTF, print_results=False)
+        s.missing_model(OUTF, print_results=False, **bnd(spec, opt, 'miss'))
     if opt.get('solver') == 'search':
         s.fit(solver='search', tolerance=1e-10, maxiter=4000)
     else:
@@ -553,8 +606,9 @@ def run_ipsw(df, spec, opt):
     from zepid.causal.generalize import IPSW
     o = Obs()
     e = IPSW(df, exposure='A', outcome='Y', selection='S', generalize=opt['gen'])
-    e.sampling_model(COVF, stabilized=opt['stab'], print_results=False)
-    e.treatment_model(COVF, stabilized=opt['stab'], print_results=False)
+    e.sampling_model(COVF, stabilized=opt['stab'], print_results=False, **bnd(spec, opt, 'samp'))
+    e.treatment_model(COVF, stabilized=opt['stab'], print_results=False,
+                      **bnd(spec, opt, 'treat', mirror=spec.get('flipped')))
     e.fit()
     o.put('RD', 'diff', e.risk_difference)
     o.put('RR', 'ratio', e.risk_ratio)
@@ -611,7 +665,8 @@ def run_aipsw(df, spec, opt):
     e = AIPSW(df, exposure='A', outcome='Y', selection='S', generalize=opt['gen'])
     e.sampling_model(COVF, stabilized=opt['stab'], print_results=False)
     if opt.get('treat', True):
-        e.treatment_model(COVF, stabilized=opt['stab'], print_results=False)
+        e.treatment_model(COVF, stabilized=opt['stab'], print_results=False,
+                          **bnd(spec, opt, 'treat', mirror=spec.get('flipped')))
     e.outcome_model(OUTF, print_results=False)
     e.fit()
     o.put('RD', 'diff', e.risk_difference)
@@ -633,6 +688,32 @@ def k_aipsw(drv, o, base, rel, spec, opt):
         r1, r0 = unfx(rep['r1']), unfx(rep['r0'])
         ok = allclose([r1 - r0, r1 / r0], [e.risk_difference, e.risk_ratio], 1e-9, 1e-12)
     return ok, rep
+
+
+def run_stmle(df, spec, opt):
+    """StochasticTMLE draws its Monte-Carlo treatments by row position from numpy's global stream: with a fixed seed
+    the plan p in (0,1) is comparable only under transformations that keep the row order and the plan (index kinds,
+    affine X, relabelled codes, cY+d); the degenerate plan p = 1 (p = 0 after the 1-A recoding) draws nothing random
+    and is compared under every transformation."""
+    from zepid.causal.doublyrobust import StochasticTMLE
+    o = Obs()
+    t = StochasticTMLE(df, exposure='A', outcome='Y')
+    t.exposure_model(COVF, **bnd(spec, opt, 'treat', mirror=spec.get('flipped')))
+    t.outcome_model(OUTF)
+    fl = spec.get('flipped')
+    t.fit(p=0.0 if fl else 1.0, samples=3, seed=11)
+    o.put('all_marginal', 'mean', t.marginal_outcome)
+    o.put('all_se', 'se', t.marginal_se)
+    o.put('all_ci', 'cimean', t.marginal_ci)
+    o.put('all_cond_se', 'se', t.conditional_se)
+    if spec.get('_kind') is None or spec['_kind'] in INDEX_KINDS + ['affx+', 'affx-', 'relabel', 'affy+', 'affy-']:
+        t.fit(p=0.4, samples=12, seed=11)
+        o.put('mc_marginal', 'mean', t.marginal_outcome)
+        o.put('mc_se', 'se', t.marginal_se)
+        o.put('mc_ci', 'cimean', t.marginal_ci)
+        o.put('mc_cond_se', 'se', t.conditional_se)
+    o.optional = {'mc_marginal', 'mc_se', 'mc_ci', 'mc_cond_se'}
+    return o
 
 
 def run_icgf(df, spec, opt):
@@ -735,6 +816,7 @@ CLASSES = {
     'TimeFixedGFormula': (run_gf, k_gf, POINT_T + ['affy+', 'affy-']),
     'AIPTW': (run_aiptw, k_aiptw, POINT_T + ['affy+', 'affy-']),
     'TMLE': (run_tmle, None, POINT_T + ['affy+', 'affy-']),
+    'StochasticTMLE': (run_stmle, None, POINT_T + ['affy+', 'affy-']),
     'GEstimationSNM': (run_snm, k_snm, POINT_T + ['affy+', 'affy-']),
     'IPSW': (run_ipsw, k_ipsw, POINT_T),
     'GTransportFormula': (run_gtrans, k_gtrans, POINT_T),
@@ -786,11 +868,27 @@ def make(group, seed, **kw):
         raise KeyError(group)
     spec['codes'] = {c: {int(v): int(v) for v in sorted(df[c].dropna().unique())} for c in spec['cat']}
     spec['flipped'] = False
+    if kw.get('bound'):
+        f = sm.families.family.Binomial()
+        d = df.reset_index(drop=True)
+        b = {}
+        if group == 'gen':
+            b['samp'] = qbounds(smf.glm('S ~ ' + COVF, d, family=f).fit().predict(d))
+            b['treat'] = qbounds(smf.glm('A ~ ' + COVF, d[d.S == 1], family=f).fit().predict(d[d.S == 1]))
+        else:
+            b['treat'] = qbounds(smf.glm('A ~ ' + COVF, d, family=f).fit().predict(d))
+            if d['Y'].isna().any():
+                d['_obs_'] = d['Y'].notna().astype(int)
+                b['miss'] = qbounds(smf.glm('_obs_ ~ ' + OUTF, d, family=f).fit().predict(d))
+            if kw.get('ytype') == 'normal':
+                d['_ys_'] = (d['Y'] - d['Y'].min()) / (d['Y'].max() - d['Y'].min())
+                b['out'] = qbounds(np.clip(smf.glm('_ys_ ~ ' + OUTF, d).fit().predict(d), 0.001, 0.999))
+        spec['bounds'] = b
     return df, spec
 
 
 GROUP_OF = {'IPTW': 'point', 'StochasticIPTW': 'point', 'TimeFixedGFormula': 'point', 'AIPTW': 'point',
-            'TMLE': 'point', 'GEstimationSNM': 'point', 'IPSW': 'gen', 'GTransportFormula': 'gen', 'AIPSW': 'gen',
+            'TMLE': 'point', 'StochasticTMLE': 'point', 'GEstimationSNM': 'point', 'IPSW': 'gen', 'GTransportFormula': 'gen', 'AIPSW': 'gen',
             'IterativeCondGFormula': 'wide', 'IPMW': 'ipmw', 'measure': 'frame'}
 
 
@@ -882,7 +980,8 @@ def compare(chk, cls, opt, kind, base, other, rel, case):
     bad = []
     for name, (k, v) in base.items():
         if name not in other:
-            bad.append((name, 'absent'))
+            if name not in getattr(base, 'optional', ()):
+                bad.append((name, 'absent'))
             continue
         want = expected(k, v, rel)
         rt, at = tolerance(cls, opt, name, k, rel)
@@ -920,6 +1019,7 @@ def run_pairs(chk, drv, cls, opt, seed, kinds, tseed):
         base = runner(df, spec, opt)
     except Exception as ex:  # the untransformed reference run must work; otherwise the data set is unusable
         chk.discard('original run failed: %s %s' % (cls, type(ex).__name__))
+        chk.extra.setdefault('original_run_failures', []).append(dict(rec, exception=str(ex)[:200]))
         return
     if drv is not None and kfun is not None:
         ok, rep = kfun(drv, base, base, {}, spec, opt)
@@ -934,6 +1034,7 @@ def run_pairs(chk, drv, cls, opt, seed, kinds, tseed):
         df2, spec2, rel = transform(df, spec, kind, np.random.default_rng(ts))
         if 'plan' in spec and 'perm' in rel:
             spec2['plan'] = spec['plan'][rel['perm']]
+        spec2['_kind'] = kind
         case = dict(rec, transformation=kind, transform_seed=ts,
                     relation={k: (v if not isinstance(v, np.ndarray) else 'permutation') for k, v in rel.items()})
         nontriv = really_changes(df, df2, kind)
@@ -1044,6 +1145,23 @@ def cells(tier):
             out.append(('AIPSW', dict(gen=g, stab=stab)))
         out.append(('AIPSW', dict(gen=g, stab=True, treat=False)))
         out.append(('GTransportFormula', dict(gen=g)))
+    # truncation bounds that bite (symmetric float and asymmetric pair with lo != 1-hi), every class that takes `bound`
+    for b in ('sym', 'asym'):
+        out.append(('IPTW', dict(ytype='binary', stab=True, tgt='population', miss=True, missing='mar', bound=b,
+                                 bwhere=('treat', 'miss'))))
+        out.append(('IPTW', dict(ytype='normal', stab=False, tgt='exposed' if b == 'sym' else 'unexposed', bound=b,
+                                 bwhere=('treat',))))
+        out.append(('AIPTW', dict(ytype='binary', miss=True, missing='mar', bound=b, bwhere=('treat', 'miss'))))
+        out.append(('AIPTW', dict(ytype='normal', bound=b, bwhere=('treat',))))
+        out.append(('TMLE', dict(ytype='binary', miss=True, missing='mar', bound=b, bwhere=('treat', 'miss'))))
+        out.append(('TMLE', dict(ytype='normal', bound=b, bwhere=('treat', 'out'))))
+        out.append(('StochasticTMLE', dict(ytype='binary' if b == 'sym' else 'normal', bound=b, bwhere=('treat',))))
+        out.append(('GEstimationSNM', dict(ytype='normal', snm='A', miss=True, missing='mar', bound=b,
+                                           bwhere=('miss',))))
+        out.append(('IPSW', dict(gen=(b == 'sym'), stab=True, bound=b, bwhere=('samp', 'treat'))))
+        out.append(('IPSW', dict(gen=(b != 'sym'), stab=False, bound=b, bwhere=('samp', 'treat'))))
+        out.append(('AIPSW', dict(gen=(b == 'sym'), stab=True, bound=b, bwhere=('treat',))))
+    out.append(('StochasticTMLE', dict(ytype='binary')))
     for K in (2, 3):
         out.append(('IterativeCondGFormula', dict(K=K)))
     for mono in (False, True):
@@ -1107,6 +1225,7 @@ def replay(rec):
             df2, spec2, rel = transform(df, spec, kind, np.random.default_rng(c['transform_seed']))
             if 'plan' in spec and 'perm' in rel:
                 spec2['plan'] = spec['plan'][rel['perm']]
+            spec2['_kind'] = kind
             try:
                 other = runner(df2, spec2, opt)
                 compare(chk, cls, opt, kind, base, other, rel, {})
